@@ -466,6 +466,35 @@ func directedC11(c *ctx) {
 // C12: crossorigin / sandbox values
 func directedC12(c *ctx) {
 	sandboxCases(c, c.san)
+	// one to four crossorigin attributes with every combination of three values, with other attributes
+	// before, between and after them, where the rules let crossorigin through and where they do not
+	for v := 0; v < 2; v++ {
+		names := []string{"src", "id", "href"}
+		if v == 0 {
+			names = append(names, "crossorigin")
+		}
+		ops := []*bmx.Op{{Kind: "AE", Names: []string{"img", "audio", "link", "b"}}, {Kind: "AA", Names: names, Scope: "G"}, {Kind: "CO", Flag: true}}
+		pid, pol := c.policy(ops)
+		vals := []string{"use-credentials", "anonymous", ""}
+		for n := 1; n <= 4; n++ {
+			total := 1
+			for i := 0; i < n; i++ {
+				total *= len(vals)
+			}
+			for code := 0; code < total; code++ {
+				k := code
+				tag := "<img id=\"1\""
+				for i := 0; i < n; i++ {
+					tag += " crossorigin=\"" + vals[k%len(vals)] + "\""
+					if i == 1 && code%2 == 0 {
+						tag += " src=\"x.png\""
+					}
+					k /= len(vals)
+				}
+				c.san(pid, pol, []byte(tag+" id=\"2\">"))
+			}
+		}
+	}
 	cos := []string{"anonymous", "use-credentials", "", "ANONYMOUS", "x"}
 	for mask := 0; mask < 64; mask++ {
 		var sb []string
